@@ -189,13 +189,25 @@ theorem markTermIfCompleted_raises (idx) : Raises (markTermIfCompleted idx) notE
   unfold markTermIfCompleted
   raises_walk []
 
+theorem machineStep_raises (k idx ev) : Raises (machineStep k idx ev) notExpr := by
+  unfold machineStep
+  raises_walk [restageRetry_raises _ _ _]
+
+theorem updateHead_raises (k ev) : Raises (updateHead E k ev) notExpr := by
+  unfold updateHead
+  raises_walk [ensureRecord_raises E _ _ _ _, noteEvent_raises _ _ _, machineStep_raises _ _ _]
+
+theorem updateTail_raises (recur : TaskKey → Event → M Unit) (hrec : ∀ k ev, Raises (recur k ev) notExpr)
+    (k ev h) : Raises (updateTail E recur k ev h) notExpr := by
+  unfold updateTail updateRest
+  raises_walk [hrec _ _, completedRetryDecision_raises E _ _ _ _ _, evalTransitions_raises E _ _ _ _, markTermIfCompleted_raises _]
+
 theorem updateTaskStateAux_raises (fuel k ev) : Raises (updateTaskStateAux E fuel k ev) notExpr := by
   induction fuel generalizing k ev with
   | zero => unfold updateTaskStateAux; exact Raises.throw (by intro hc; cases hc)
   | succ n ih =>
     unfold updateTaskStateAux
-    raises_walk [ih _ _, ensureRecord_raises E _ _ _ _, noteEvent_raises _ _ _, restageRetry_raises _ _ _,
-      completedRetryDecision_raises E _ _ _ _ _, evalTransitions_raises E _ _ _ _, markTermIfCompleted_raises _]
+    raises_walk [updateHead_raises E _ _, updateTail_raises E _ (fun k ev => ih k ev) _ _ _]
 
 /-- **C11**: whatever the evaluator does — retry condition/count/delay, transition conditions and
     publishes may all fail — `update_task_state` never raises an expression error -/
